@@ -146,6 +146,7 @@ func Hist(t *rapid.T, o HistOpts) *History {
 		if o.Replays && rapid.IntRange(0, 7).Draw(t, "replay") == 0 {
 			cp := *op
 			cp.Desc.Name = op.Desc.Name + "/replay"
+			cp.Dup = true
 			h.Ops = append(h.Ops, &cp)
 		}
 		if forged || kind == "deactivate" {
@@ -179,6 +180,7 @@ func Hist(t *rapid.T, o HistOpts) *History {
 			if rapid.Bool().Draw(t, "dupSameDelta") {
 				cp := *create
 				cp.Desc.Name = fmt.Sprintf("create/dup%d", i+1)
+				cp.Dup = true
 				h.Ops = append(h.Ops, &cp)
 			} else {
 				d := hist.DupCreateOtherDelta(create, fmt.Sprintf("create/other-delta%d", i+1), code)
